@@ -405,14 +405,11 @@ class ManagerTr:
                 if [_src(a) for a in body0.value.args] != ["src_module", "self.message"]:  # type: ignore
                     raise TranslateError(f"process_message: unexpected arguments for {callee}")
                 arms.append((self.cd.const(t.comparators[0].attr), callee))
-            else:
-                # an earlier arm must not shadow a control type: its test has to be an equality chain on msg_type
-                pass
             nxt = node.orelse
             node = nxt[0] if len(nxt) == 1 and isinstance(nxt[0], ast.If) else None
         if sorted(c for _, c in arms) != sorted(handlers) or len({k for k, _ in arms}) != 4:
             raise TranslateError(f"process_message: control dispatch arms {arms}")
-        # arms that precede: make sure none of their tests mention the four control ids (checked by value)
+        # no other arm of the chain may test one of the four control ids (checked by value): it would shadow it
         node = first[0]
         seen: List[int] = []
         while node is not None:
@@ -495,7 +492,7 @@ def read_guards(cd: CoreDefs) -> str:
         if not isinstance(stmts[-1], ast.Raise):
             raise TranslateError(f"_read_message: {what} branch does not end in raise")
         first_recv = next(i for i, s in enumerate(stmts) if any(x is c for x in ast.walk(s)))
-        if first_recv != len(stmts) - 2 and what != "unknown-type":
+        if first_recv != len(stmts) - 2:
             raise TranslateError(f"_read_message: {what} branch: drain is not immediately before the raise")
         et = ExprTr({"header.num_data_bytes": "n", "type_size": "type_size"})
         return et.z(c.args[0])
